@@ -1,6 +1,6 @@
 """C07 - ring buffer capacity contract: constants/layout agreement, refusals
 without effect, mapping matches indexing."""
-from engine.qb import (cmp_forms, AnalysisBroken, estr, unwrap, cval, walk, last_field, fields_of, callee_of, mentions_var, atoms_of)
+from engine.qb import (cond_cut, cmp_forms, AnalysisBroken, estr, unwrap, cval, walk, last_field, fields_of, callee_of, mentions_var, atoms_of)
 from rules.common import (field_is, is_shared_data_idx, shared_store, is_marker_get, is_marker_set, has_call, macro_named)
 from rules import c01
 
@@ -16,8 +16,9 @@ RULES = {
     'R5': 'circular mmap: 2*bytes reserved, the same fd mapped MAP_FIXED|MAP_SHARED at addr and addr+bytes, offset 0; word_size = real_size/4 for the same real_size; close unmaps (word_size*4)<<1',
     'R6': 'qb_rb_space_free/used: one word is kept unused (the -1), equal indices mean empty, result scaled by the word size',
     'R7': 'no stale payload can pass for a chunk: before a chunk is published the two words the reader will take for the next header (at the new write_pt) are overwritten - the length word always, the marker word unless it is the published chunk\'s own length word (ring filled completely) - with values that are not the published-chunk marker',
+    'R8': 'the space test cannot be fooled by a huge length: wherever qb_rb_chunk_alloc compares the free space with len + margin, len is already known not to exceed what the whole ring holds (a test of len against a quantity measured on word_size, made without adding to len): for the twelve lengths below SIZE_MAX the sum wraps to a small number',
 }
-FLOORS = {'R1': 5, 'R2': 9, 'R3': 5, 'R4': 5, 'R5': 9, 'R6': 5, 'R7': 3}
+FLOORS = {'R1': 5, 'R2': 9, 'R3': 5, 'R4': 5, 'R5': 9, 'R6': 5, 'R7': 3, 'R8': 2}
 
 
 def run(ctx):
@@ -35,6 +36,7 @@ def run(ctx):
     r5(ctx)
     r6(ctx)
     r7(ctx)
+    r8(ctx)
 
 
 def _lin(e):
@@ -401,3 +403,74 @@ def r7(ctx):
         ctx.check('R7', 'marker-clear-skipped-only-for-own-word', not hits, pub,
                   'the overwrite is skipped only when the word is the published chunk\'s own length word',
                   'a path publishes the chunk without overwriting the next marker word although that word is free')
+
+
+def len_bounded_pred(f, lenp):
+    """predicate for atoms that bound the length parameter by the size of the ring: `len <= g(word_size)` with len standing alone
+    on its side, or the zero value of a flag whose only definition is `len > g(word_size)`"""
+    def on_ring(e):
+        return any(n.get('k') == 'mem' and n.get('f') == 'word_size' for n in walk(e)) and not has_call(e, 'qb_rb_space_free')
+
+    def flag_def(name):
+        ds = [ev for ev in list(f.events('STORE')) + list(f.events('DECL'))
+              if (ev.kind == 'DECL' and ev.d['var'] == name and 'init' in ev.d) or (ev.kind == 'STORE' and estr(ev.lhs) == name)]
+        if len(ds) != 1:
+            return None
+        return ds[0].rhs if ds[0].kind == 'STORE' else ds[0].d['init']
+
+    def pred(a, fb):
+        l = unwrap(a.l)
+        if l.get('k') == 'var' and l['n'] == lenp and a.op in ('<=', '<') and on_ring(a.r):
+            return True
+        if l.get('k') == 'var' and l['n'] != lenp and a.op == '==' and a.rc == 0:
+            d = flag_def(l['n'])
+            if d is not None:
+                return any(unwrap(x.l).get('k') == 'var' and unwrap(x.l)['n'] == lenp and x.op in ('>', '>=') and on_ring(x.r) for x in atoms_of(d, True))
+        return False
+    return pred
+
+
+def r8(ctx):
+    prog = ctx.prog
+    f = prog.fn('qb_rb_chunk_alloc')
+    lenp = f.params[1]['n']
+    pred = len_bounded_pred(f, lenp)
+    n = 0
+    for b in f.blocks.values():
+        if b.cond is None or not has_call(b.cond, 'qb_rb_space_free'):
+            continue
+        # a comparison of the free space with an expression that adds to len
+        adds = any(n_.get('k') == 'bin' and n_.get('op') == '+' and any(m.get('k') == 'var' and m['n'] == lenp for m in walk(n_)) for n_ in walk(b.cond))
+        if not adds:
+            continue
+        n += 1
+        ctx.check('R8', 'length-bounded-before-added-to', f.uncut_path_to_block(b.id, pred) is None if hasattr(f, 'uncut_path_to_block') else _block_cut(f, b.id, pred),
+                  '%s:%d (%s)' % (f.file, b.term_ln, f.name),
+                  'the free space is compared with len + margin only for a len that the ring could hold',
+                  'free space is compared with len + margin for any len: for a len within the margin of SIZE_MAX the sum wraps, the request is granted on a '
+                  'nearly full ring and the commit steps the write index onto the read index (a whole ring of unread data is destroyed)')
+    if n < 2:
+        raise AnalysisBroken('qb_rb_chunk_alloc: %d space comparisons that add to len (expected overwrite + normal mode)' % n)
+
+
+def _block_cut(f, bid, pred):
+    """no path from the entry reaches the decision made in block bid without crossing an edge that establishes pred"""
+    def ef(fb, t, lab):
+        if fb.cond is None or lab not in (True, False):
+            return True
+        return not cond_cut(fb.cond, lab, lambda a: pred(a, fb))
+    seen, work = set(), [f.entry]
+    while work:
+        x = work.pop()
+        if x in seen:
+            continue
+        seen.add(x)
+        if x == bid:
+            return False
+        blk = f.blocks[x]
+        if blk.noreturn:
+            continue
+        for (t, lab) in blk.succs:
+            if ef(blk, t, lab):
+                work.append(t)
+    return True
